@@ -99,3 +99,6 @@ def execute(scenario):
     sim.stats["rebalances"] = sum(1 for r in sim.sink.records if r["kind"] == "EXEC")
     return {"violations": violations, "digest": core.digest(sim.log_for_digest()), "probes": probes, "faults": sim.faults,
             "stats": sim.stats, "trace": trace, "nontrivial": trades >= 1 and len(probes) >= 1}
+
+
+generate = gen_epi.with_backtest_driver(generate, 0.2)
